@@ -2,8 +2,8 @@ SPECIFICATION Spec
 CONSTANTS
   LB = 8
   LBits = 3
-  N = 1024
-  NS = 32
+  N = 768
+  NS = 28
 INVARIANT NatOK
 INVARIANT ScOK
 CHECK_DEADLOCK FALSE
